@@ -116,7 +116,7 @@ def _main(world, sock, max_conn):  # type: ignore[no-untyped-def]
     if not world.listener_closed:
         # left through the idle-shutdown branch: nothing it accepted may be unserved or in service at
         # that moment (Thread.join(timeout) returns immediately in the model, so "now" is the moment
-        # the loop was left; the real-thread replay samples the same moment at the first join())
+        # the loop was left; timed join()s return at once in the real-thread replay too)
         world.pending_at_exit = [c.n for c in world.accepted if c.n not in world.served]
         if world.pending_at_exit:
             world.bad.append("idle-shutdown-with-connection-accepted")
@@ -198,31 +198,17 @@ def _real_replay(script: list[int], prop: str):  # type: ignore[no-untyped-def]
         mcv = world.max_conn
         rworld = _World(mcv)
 
-        import threading
-
-        sampled: list = []
-        orig_join = threading.Thread.join
-
-        def join_and_sample(self, timeout=None):  # type: ignore[no-untyped-def]
-            # the accept loop joins its connection threads right after leaving the loop: the first
-            # join() by the accept-loop thread marks "the moment the loop was left"
-            if not sampled and getattr(threading.current_thread(), "_coop_idx", None) == 0:
-                sampled.append([c.n for c in rworld.accepted if c.n not in rworld.served])
-            return orig_join(self, timeout)
-
         def main() -> None:
-            threading.Thread.join = join_and_sample  # type: ignore[method-assign]
-            try:
-                tr._serve_socket_threaded(_RealServer(rworld), _Sock(rworld, list(script)), mcv, 5.0, lambda c: _Transport(rworld, c), "t")  # type: ignore[arg-type]
-            finally:
-                threading.Thread.join = orig_join  # type: ignore[method-assign]
+            tr._serve_socket_threaded(_RealServer(rworld), _Sock(rworld, list(script)), mcv, 5.0, lambda c: _Transport(rworld, c), "t")  # type: ignore[arg-type]
             rworld.returned = True
             if not rworld.listener_closed:
-                rworld.pending_at_exit = sampled[0] if sampled else [c.n for c in rworld.accepted if c.n not in rworld.served]
+                # timed join()s return at once in the replay (as in the model), so "now" is the
+                # moment the accept loop was left
+                rworld.pending_at_exit = [c.n for c in rworld.accepted if c.n not in rworld.served]
                 if rworld.pending_at_exit:
                     rworld.bad.append("idle-shutdown-with-connection-accepted")
 
-        res = coop.replay_real(UNIT, [main], s.trace, s.seg_ends, dynamic=True)
+        res = coop.replay_real(UNIT, [main], s.trace, s.seg_ends, dynamic=True, timeout_s=45.0)  # a timed acquire()/join() in the code really waits
         if res["diverged"] or not res["completed"] or any(res["exceptions"]):
             return None
 
